@@ -6,60 +6,60 @@ NOTES = ("All checks are bounded-exhaustive explorations that execute the real l
 claim("C01", "bounded-exhaustive enumeration of (variant, length, pattern, outlen, keylen) one-step programs on the real code vs hashlib/Keccak model",
       "Every one-shot digest and new/update/finalize path is executed for every length 0..=4B+1 (quick 0..=2B+1) of every variant, every BLAKE2 outlen x keylen, "
       "and compared with an independent implementation; exhaustive over the stated shape space, content from a fixed pattern alphabet.",
-      "Trusts hashlib/OpenSSL, the validated python Keccak, the executor's op interpreter and rustc.", "DESIGN.md section 3 C01")
+      "Trusts hashlib/OpenSSL, the validated python Keccak, the executor's op interpreter and rustc.", "DESIGN.md section 3 C01 and 10.1 (own corpus re-run on the checked-arithmetic build and, where vector code is reached, on the +sse4.1/+avx/+avx2 builds; additional histories and every-length sweeps)")
 
 claim("C02", "explicit-state BFS (tree to depth 3/4, graph until frontier empty) over histories of real hash contexts vs reference digests in every state",
       "Every sequence of update/update_mut/fork/reset/finalize_reset/finalize(/reset_with_key/finalize_reset_with_key) letters up to the depth bound, and every "
       "partition of messages up to 4B+1 bytes into alphabet chunks, is executed on the real contexts of all 36 context types; in every state three probe digests of "
       "clones must equal the model.",
-      "Trusts hashlib/validated Keccak; chunk content is a position-determined pattern; graph merging keyed on model state + observed probe digests.", "DESIGN.md section 3 C02")
+      "Trusts hashlib/validated Keccak; chunk content is a position-determined pattern; graph merging keyed on model state + observed probe digests.", "DESIGN.md section 3 C02 and 10.1 (own corpus re-run on the checked-arithmetic build and, where vector code is reached, on the +sse4.1/+avx/+avx2 builds; additional histories and every-length sweeps)")
 claim("C03", "bounded-exhaustive product of (variant, rounds, key length, key, nonce, start block incl. counter boundaries via hooks, length) on real contexts and on the portable engine vs python spec models",
       "The full product of the stated alphabets is executed, including 32-bit wrap and 64-bit carry boundaries reached through cfg-guarded counter setters, on the SSE2 "
       "contexts and on the portable engine through the hook wrapper.",
-      "Trusts the python ChaCha/Salsa models (validated by RFC/draft/ECRYPT/NaCl vectors) and the hook setters.", "DESIGN.md section 3 C03")
+      "Trusts the python ChaCha/Salsa models (validated by RFC/draft/ECRYPT/NaCl vectors) and the hook setters.", "DESIGN.md section 3 C03 and 10.1 (own corpus re-run on the checked-arithmetic build and, where vector code is reached, on the +sse4.1/+avx/+avx2 builds; additional histories and every-length sweeps)")
 claim("C04", "explicit-state BFS over histories {process, process_mut, seek, clone} of real cipher contexts and {bytes, fill_bytes, fill_slice, u32, u64} of the DRG vs a position-indexed keystream model",
       "Every letter sequence to depth 3/4 with up to two live contexts, every partition of 4 blocks + 1 byte per seek in graph mode, and every DRG request sequence to depth 3 "
       "over prior buffer contents, with the next 65 keystream bytes of a clone checked in every state.",
-      "Trusts the keystream models of C03; DRG u32/u64 big-endian convention as documented.", "DESIGN.md section 3 C04")
+      "Trusts the keystream models of C03; DRG u32/u64 big-endian convention as documented.", "DESIGN.md section 3 C04 and 10.1 (own corpus re-run on the checked-arithmetic build and, where vector code is reached, on the +sse4.1/+avx/+avx2 builds; additional histories and every-length sweeps)")
 claim("C05", "bounded-exhaustive enumeration of keys x messages (every length 0..=80, crafted wrap-around blocks) x chunkings (all 2-splits, 3-splits, depth-3 chunk sequences) vs big-integer Poly1305",
       "All listed keys, every message length 0..=80, every cut point, accumulator values p-2..p+4 and the RFC 8439 A.3 inputs are executed on the real MAC.",
-      "Trusts python big-integer arithmetic.", "DESIGN.md section 3 C05")
+      "Trusts python big-integer arithmetic. Also: accumulator steering (blocks assembled from 26-bit limb fields in every combination, sum passing 2^130, saturated keys x all sequences of <= 3 saturated blocks, runs of 4096 saturated blocks); own corpus re-run on the checked-arithmetic and +avx2 builds (DESIGN 10.1).", "DESIGN.md section 3 C05 and 10.1")
 claim("C06", "product enumeration of one-shot AEAD shapes plus explicit-state BFS of the incremental phase machine (graph mode to frontier-empty, fork tree) vs RFC 8439 model",
       "Every (key length, AAD length, plaintext length) shape one-shot, and every partition of AAD (<=33/67 bytes) and data (<=130/260 bytes) across "
       "add_data/encrypt/encrypt_mut/decrypt/decrypt_mut for rounds 8/12/20, with the tag of a finalized clone checked in every state.",
-      "Trusts the python AEAD model (RFC 8439 2.8.2 vector) and the ChaCha model.", "DESIGN.md section 3 C06")
+      "Trusts the python AEAD model (RFC 8439 2.8.2 vector) and the ChaCha model.", "DESIGN.md section 3 C06 and 10.1 (own corpus re-run on the checked-arithmetic build and, where vector code is reached, on the +sse4.1/+avx/+avx2 builds; additional histories and every-length sweeps)")
 claim("C07", "bounded-exhaustive mutation enumeration (every tag/nonce/key bit, boundary bits of CT/AAD, truncation, extension, boundary moves, swaps) through three decrypt interfaces with computed verdicts",
       "For every base shape each mutation is decided by the one-shot and two incremental decryptors; the expected verdict is computed from the model tag of exactly the supplied inputs.",
-      "Trusts the python AEAD model; long inputs are bit-flipped only at first/last/16-byte-boundary bytes.", "DESIGN.md section 3 C07")
+      "Trusts the python AEAD model; long inputs are bit-flipped only at first/last/16-byte-boundary bytes.", "DESIGN.md section 3 C07 and 10.1 (own corpus re-run on the checked-arithmetic build and, where vector code is reached, on the +sse4.1/+avx/+avx2 builds; additional histories and every-length sweeps)")
 
 claim("C08", "bounded-exhaustive enumeration of 23 digest instantiations x key lengths x message lengths x chunkings (2-splits, all depth-3 chunk sequences) on the real Hmac vs RFC 2104 model",
       "The product of boundary key lengths {0,1,B-1,B,B+1,2B+5}, message lengths and chunkings is executed for every legacy digest type incl. BLAKE2 with several output sizes.",
-      "Trusts the reference hashes and the RFC 2104 construction (cross-checked with python's hmac for 12 digests).", "DESIGN.md section 3 C08")
+      "Trusts the reference hashes and the RFC 2104 construction (cross-checked with python's hmac for 12 digests).", "DESIGN.md section 3 C08 and 10.1 (own corpus re-run on the checked-arithmetic build and, where vector code is reached, on the +sse4.1/+avx/+avx2 builds; additional histories and every-length sweeps)")
 claim("C09", "explicit-state BFS over lifecycle histories {input, result, raw_result, reset, clone, inherent BLAKE2 resets} of real MAC and legacy digest objects vs a lifecycle automaton",
       "Every letter sequence to depth 3/4 with up to two objects, and graph exploration to frontier-empty within 4 blocks and 2 resets, for Hmac over 8/21 digests, Poly1305, "
       "keyed BLAKE2 through Mac and Digest, and all 16 fixed legacy digests; result-of-clone is checked in every state.",
-      "A repeated result may repeat or panic; histories end at a panic; reference MAC/hash models as before.", "DESIGN.md section 3 C09")
+      "A repeated result may repeat or panic; histories end at a panic; reference MAC/hash models as before.", "DESIGN.md section 3 C09 and 10.1 (own corpus re-run on the checked-arithmetic build and, where vector code is reached, on the +sse4.1/+avx/+avx2 builds; additional histories and every-length sweeps)")
 claim("C10", "bounded-exhaustive parameter-product enumeration for HKDF / PBKDF2 / scrypt one-step programs vs RFC 5869 model, hashlib.pbkdf2_hmac, hashlib.scrypt; refusal boundaries enumerated",
       "Every listed (digest, salt, IKM, info, L), (PRF, c, dkLen, password, salt) and every scrypt (log2N 1..10, r 1..8, p 1..4, dkLen) tuple is executed; over-limit requests and "
       "RFC 7914 constraint boundaries must panic.",
-      "Trusts hashlib (OpenSSL) for PBKDF2/scrypt and the validated HKDF model.", "DESIGN.md section 3 C10")
+      "Trusts hashlib (OpenSSL) for PBKDF2/scrypt and the validated HKDF model.", "DESIGN.md section 3 C10 and 10.1 (own corpus re-run on the checked-arithmetic build and, where vector code is reached, on the +sse4.1/+avx/+avx2 builds; additional histories and every-length sweeps)")
 claim("C11", "bounded-exhaustive parameter-product enumeration of Argon2 one-step programs vs python RFC 9106 model",
       "type x version x t 1..4 x p 1..5 x memory set (incl. non-multiples of 4p and segment length > 128) x every tag length 4..300 x input-length shapes, both entry points, setter boundaries.",
-      "Trusts the python Argon2 model (RFC 9106 vectors + 42 OpenSSL cross vectors incl. v0x10, p=1, segment length 130).", "DESIGN.md section 3 C11")
+      "Trusts the python Argon2 model (RFC 9106 vectors + 42 OpenSSL cross vectors incl. v0x10, p=1, segment length 130).", "DESIGN.md section 3 C11 and 10.1 (own corpus re-run on the checked-arithmetic build and, where vector code is reached, on the +sse4.1/+avx/+avx2 builds; additional histories and every-length sweeps)")
 claim("C12", "full product enumeration of boundary scalars (every single-bit scalar) x boundary u-coordinates (non-canonical, small-order, top bit) on the real ladder vs RFC 7748 python",
       "All enumerated (scalar, u) pairs through curve25519, x25519::dh, the fixed-base functions, exchange agreement and the RFC 7748 1/1000-iteration vectors.",
-      "Trusts the python ladder (RFC + OpenSSL vectors); values outside the enumerated set are not covered.", "DESIGN.md section 3 C12")
+      "Trusts the python ladder (RFC + OpenSSL vectors); values outside the enumerated set are not covered. Also: every small u, the C15 limb-field / result-steering field programs incl. the ladder constant multiplication (hook) as a component, own corpus re-run on the checked-arithmetic and force-32bits builds (DESIGN 10.1).", "DESIGN.md section 3 C12 and 10.1")
 claim("C13", "bounded-exhaustive enumeration of seeds x message lengths (every length 0..=300) for keypair/sign/sign_extended/extended_to_public/exchange vs RFC 8032 python",
       "Every message length 0..=300 and the block-boundary lengths for all seeds; signatures, key layout, extended-key equivalence and the Ed25519->X25519 exchange are compared byte for byte.",
-      "Trusts the python RFC 8032 model (RFC vectors + 15 OpenSSL signatures).", "DESIGN.md section 3 C13")
+      "Trusts the python RFC 8032 model (RFC vectors + 15 OpenSSL signatures). Also: C15 scalar components (a*b+c mod L on limb-field scalars via hook, wide reduction on steered remainders, fixed-base multiplication on carry-chain digit strings), own corpus re-run on the checked-arithmetic and force-32bits builds (DESIGN 10.1).", "DESIGN.md section 3 C13 and 10.1")
 claim("C14", "bounded-exhaustive mutation and adversarial-input enumeration for ed25519::verify with the verdict computed from the statement in python",
       "All 512 signature bits, 256 key bits, message bits, every S+kL below 2^256, small-order / non-canonical / non-point keys and R, crafted small-order triples satisfying the "
       "cofactorless equation (108 accepting cases in the quick tier).",
-      "Permissive point decoding as in ref10; trusts python point arithmetic.", "DESIGN.md section 3 C14")
+      "Permissive point decoding as in ref10; trusts python point arithmetic. Also: C15 scalar / recoding / codec components, own corpus re-run on the checked-arithmetic and force-32bits builds (DESIGN 10.1).", "DESIGN.md section 3 C14 and 10.1")
 claim("C15", "grammar-bounded enumeration of field-expression programs (depth 2/3), scalar boundary sets (every 2^i), every single-nibble base-point scalar, all boundary scalar pairs x 14 points for the double-scalar routine, all point pairs for the group law",
       "Programs for field/scalar/group stack machines are enumerated exhaustively within the stated grammar depth and alphabets and executed on the public arithmetic types; "
       "every GE_BASE and BI table entry is reached. Ge::from_bytes returning -P is a recorded known finding.",
-      "Trusts python integer arithmetic; operands >= 2^255 not generated.", "DESIGN.md section 3 C15")
+      "Trusts python integer arithmetic; operands >= 2^255 not generated. Also: limb-field product alphabets for both backends (all pairs), result steering (every limb-field element as the result of mul / square / square_and_double / small-constant multiplication / wide reduction), a*b+c mod L and digit recodings through hooks, every doubling path incl. P1P1; own corpus re-run on the checked-arithmetic and force-32bits builds (DESIGN 10.1).", "DESIGN.md section 3 C15 and 10.1")
 
 claim("C16", "identical bounded-exhaustive workloads executed by 4 differently compiled executors (baseline/SSE2, +sse4.1, +avx, +avx2) plus the portable ChaCha engine via hook; per-step model comparison and cross-build transcript identity",
       "SHA-224/256 with k = 1..20 blocks per call at byte offsets 0..31 and varying chaining states, BLAKE2b/s keyed/unkeyed with and without the last-block flag, the complete C03 grid, "
@@ -70,11 +70,11 @@ claim("C17", "the complete C12-C15 case sets executed through the default and th
       "Feature-forced 32-bit backend on x86-64 only (no real 32-bit target installed).", "DESIGN.md section 3 C17")
 claim("C18", "exhaustive tables (all 2^16 byte pairs, all pairs over a 200-value u64 boundary set) and bounded-exhaustive enumeration of array/slice/choice/option/swap/set/MacResult/Tag cases vs python operators",
       "Every helper is evaluated on the complete stated operand sets (arrays 0..40 bytes differing at every single position, every (choice, array pair)).",
-      "Trusts python comparison operators; masked swap/set reached through cfg-guarded public wrappers.", "DESIGN.md section 3 C18")
+      "Trusts python comparison operators; masked swap/set reached through cfg-guarded public wrappers.", "DESIGN.md section 3 C18 and 10.1 (own corpus re-run on the checked-arithmetic build and, where vector code is reached, on the +sse4.1/+avx/+avx2 builds; additional histories and every-length sweeps)")
 claim("C19", "2-safety by self-composition over an enumerated secret alphabet: instruction-address traces (valgrind lackey; ptrace single-step cross-check in thorough) of the release victim must be identical for every secret",
       "For each of 12 operations every secret of the alphabet (single-bit values, 00/FF, patterns; every mismatch position for comparisons) is executed under an instruction-level monitor "
       "and the full program-counter sequence between two markers is compared with the baseline's; the monitor is self-tested on a deliberately leaky operation in every run.",
-      "Instruction addresses only (data addresses reported as information); this compiler, baseline x86-64 release build; not a proof outside the alphabet.", "DESIGN.md section 3 C19")
+      "Instruction addresses only (data addresses reported as information); this compiler, baseline x86-64 release builds (default and, for the curve operations, force-32bits); wide scalar reduction on chosen remainders around L; not a proof outside the alphabet.", "DESIGN.md section 3 C19 and 10.1")
 claim("C20", "the entire quick corpus of C01-C15 re-executed on debug and release+overflow-checks+debug-assertions executors with cross-build transcript identity, counter-crossing programs via hooks, and an enumerated misuse corpus that must be refused on all builds (memcheck in thorough)",
       "About 5.8 million in-domain programs per run on the two checked builds must neither panic nor differ; BLAKE2 and cipher counters are preset next to their word boundaries; "
       "every documented-invalid argument shape per entry point must panic or return an error on all three builds.",
